@@ -1,5 +1,6 @@
 CONSTANTS MaxOps = 6
           ResyncOnChange = TRUE
+          DocCacheByText = FALSE
           LintMemo = TRUE
 INIT JInit
 NEXT JNextIgnoreList
